@@ -18,7 +18,8 @@ INFO = {
             "byte strings of the alphabet x line sizes. non-trivial = a state/pair/string on which the compared observation was "
             "actually produced by the implementation",
     "bounds": {"quick": {"history_depth": 3, "keys": ["a", "b", "_p", "items", 1], "hex_len": 4},
-               "thorough": {"history_depth": 4, "keys": ["a", "b", "_p", "items", 1, "keys", "update", "copy", "search"], "hex_len": 5}},
+               "thorough": {"history_depth": 3, "keys": ["a", "b", "_p", "items", 1, "keys", "update", "copy", "search"], "hex_len": 5,
+                            "deep": "additionally depth 4 over keys a,_p,items and values 0, Container(x=0), ListContainer of containers"}},
     "trusted_base": ["CPython dict/list as reference model", "pickle and copy modules (they define what a copy is)"],
     "assumptions": ["nested dict-likes are Container/ListContainer (what parsing produces); plain lists only hold scalars",
                     "None is not used as a value (search cannot distinguish a None match from no match)"],
@@ -97,6 +98,8 @@ def strip(r):
 # events ------------------------------------------------------------------------------
 
 def alphabet(tier, depth_left=None):
+    if tier == "deep":
+        return ["a", "_p", "items"], [0, V_C1, V_LC]
     keys = INFO["bounds"][tier]["keys"]
     vals = [0, "s", V_LIST, V_C1, V_LC] if tier == "quick" else [0, 1, "s", V_LIST, V_C0, V_C2, V_CC, V_LC]
     return keys, vals
@@ -383,6 +386,9 @@ def units(tier):
     us = [{"kind": "bfs", "first": None}]
     for ev in enabled({}, tier):
         us.append({"kind": "bfs", "first": ev})
+    if tier == "thorough":
+        for ev in enabled({}, "deep"):
+            us.append({"kind": "bfs", "first": ev, "alpha": "deep", "depth": 4})
     us.append({"kind": "laws"})
     us.append({"kind": "search"})
     n = INFO["bounds"][tier]["hex_len"]
@@ -409,7 +415,8 @@ def run_unit(unit, tier):
 
 
 def run_bfs(unit, tier, r):
-    depth = INFO["bounds"][tier]["history_depth"]
+    depth = unit.get("depth") or INFO["bounds"][tier]["history_depth"]
+    tier = unit.get("alpha", tier)
     r.export_states = True
     first = unit["first"]
     if first is None:
